@@ -130,14 +130,31 @@ def main():
                 sm = svm[(name, tgt)]
                 rec["target"] = tgt
                 if not step.get("noset"):
+                    if not step.get("array"):
+                        # a tabulated distribution installed by an earlier step is part of the object's state;
+                        # a request without one puts the documented default distribution back first
+                        from sasmodels.weights import GaussianDispersion
+                        for par_, dis_ in list(sm.dispersion.items()):
+                            if dis_.get("type") == "array":
+                                sm.set_dispersion(par_, GaussianDispersion())
                     for k_, v in step["pars"].items():
                         sm.setParam(k_, v)
                 q = qvec(step)
-                copies = [a.copy() for a in q]
+                user_arrays = []
+                if step.get("array") and not step.get("noset"):
+                    # a tabulated distribution handed over as the caller's own float64 arrays (raw counts)
+                    from sasmodels.weights import ArrayDispersion
+                    spec = step["array"]
+                    av, aw = np.array(spec["values"], float), np.array(spec["weights"], float)
+                    disp = ArrayDispersion()
+                    disp.set_weights(av, aw)
+                    sm.set_dispersion(spec["par"], disp)
+                    user_arrays = [av, aw]
+                copies = [a.copy() for a in q + user_arrays]
                 res = sm.evalDistribution(q[0] if len(q) == 1 else q)
                 rec["hex"] = np.asarray(res, float).tobytes().hex()
                 kept.append((i, op, res, blob_of(res)))
-                rec["mutated"] = any(not np.array_equal(a, b) for a, b in zip(q, copies))
+                rec["mutated"] = any(not np.array_equal(a, b) for a, b in zip(q + user_arrays, copies))
                 last = step
             else:
                 rec["err"] = "unknown op"
